@@ -79,6 +79,25 @@ def subharnesses(tier):
                                 '_'.join(str(m) for m in mu),
                                 ''.join('P' if x else 'p' for x in pl))
                             subs.append((name, spec))
+    # allocation changes re-assign an instance (Loader.load_app -> add_app):
+    # there and back, and on to a third allocation, before the next cycle
+    for moves, tag in (
+            ([(0, ['_default', 'b']), (0, ['_default', 'a'])], 'aba'),
+            ([(0, ['_default', 'b']), (1, ['_default', 'b']),
+              (0, ['_default', 'a'])], 'ab_b_a'),
+            ([(0, ['_default', 'b'])], 'ab')):
+        allocs = [{'path': [], 'label': '_default'}]
+        for ai, path in enumerate(SHAPES['two']):
+            allocs.append({'path': path, 'label': '_default',
+                           'reserved': [(2, 5)[ai]], 'rank': 'sym',
+                           'rank_adjustment': 'sym', 'max_utilization': None})
+        apps = [{'place': None, 'alloc': ['_default', 'a']} for _ in range(3)]
+        spec = {'topo': 'T1', 'D': 1,
+                'servers': [{'capacity': [BIG]}, {'capacity': [BIG]}],
+                'allocs': allocs, 'apps': apps, 'prio_order': 'free',
+                'shape': 'two', 'res': [2, 5], 'mu': [None, None],
+                'asg': [0, 0, 0], 'moves': moves}
+        subs.append(('two-D1-moves-%s' % tag, spec))
     return subs
 
 
@@ -89,6 +108,9 @@ def budget(tier, name):
 def harness(S, spec):
     W = g1.build(S, spec)
     D = W.D
+    for (i, key) in spec.get('moves', []):
+        W.cell.add_app(W.allocs[tuple(key)], W.apps[i])
+        S.reach('moved_between_allocations')
     cell = W.cell
     pre_placed = {a.name: a.server is not None for a in W.apps}
     placement = cell.schedule()
